@@ -147,13 +147,13 @@ def body_dist(case):
         elif t_min < 1.0 - 1e-6:
             labs.append("nt:contracted")
             check(0 < alpha <= 1 + 1e-9, "dist:alpha-range", f"alpha = {alpha}")
-            check(alpha <= t_min * (1 + 1e-7) + 1e-9, "dist:outside-chromatic-gamut",
+            check(alpha <= t_min * (1 + 1e-5) + 1e-9, "dist:outside-chromatic-gamut",
                   f"common factor {alpha:.9g} exceeds the largest admissible one {t_min:.9g}: some chromaticity stays outside the chromatic gamut")
-            check(alpha >= t_min * (1 - 1e-6) - 1e-9, "dist:not-largest-factor",
+            check(alpha >= t_min * (1 - 1e-5) - 1e-9, "dist:not-largest-factor",
                   f"common factor {alpha:.9g} is smaller than the largest admissible one {t_min:.9g}")
             for oh in Oh[:6]:
                 dd, _ = hull_dist(Ph, oh)
-                check(dd <= 1e-8, "dist:outside-chromatic-gamut", f"a scaled chromaticity is at distance {dd:.3g} from the chromatic gamut")
+                check(dd <= 1e-7, "dist:outside-chromatic-gamut", f"a scaled chromaticity is at distance {dd:.3g} from the chromatic gamut")
         else:
             labs.append("band")
     if np.any(zero):
@@ -188,10 +188,13 @@ def body_l1(case):
     check(np.array_equal(B, B0), "l1:input-modified", "caller's target array modified")
     check(out.shape == B.shape and np.all(np.isfinite(out)), "l1:shape", f"{out.shape}")
     L_in, L_out = B - basep, out - basep
-    big = np.abs(L_in) > 1e-9 * np.max(np.abs(L_in))
-    f = float(np.median(L_out[big] / L_in[big]))
+    # the common factor is read off the largest entry; the comparison is absolute on the scale of the arrays involved (the
+    # subtraction of the baseline cancels digits of small light-induced parts)
+    k = np.unravel_index(np.argmax(np.abs(L_in)), L_in.shape)
+    f = float(L_out[k] / L_in[k])
     check(f > 0, "l1:factor-positive", f"factor {f}")
-    check(np.all(np.abs(L_out - f * L_in) <= 1e-9 * np.abs(f * L_in).max()), "l1:common-factor", f"light-induced parts are not multiplied by one common factor (f ~ {f:.6g})")
+    scale = max(float(np.max(np.abs(out))), float(np.max(np.abs(B))) * max(f, 1.0))
+    check(np.all(np.abs(L_out - f * L_in) <= 1e-9 * scale), "l1:common-factor", f"light-induced parts are not multiplied by one common factor (f ~ {f:.6g})")
     target_max = float(np.min(np.max(Ap * sv.ub, axis=1)))
     check(abs(np.max(L_out) - target_max) <= 1e-9 * target_max, "l1:largest-capture",
           f"largest light-induced capture is {np.max(L_out):.9g}, expected the smallest single-source maximum {target_max:.9g}")
